@@ -42,6 +42,13 @@ SETTINGS_THOROUGH = SETTINGS_QUICK + [
 
 
 def plan(tier: str, seed: int):
+    # plus a thread-stress shard (vlib/threads.py)
+    return _plan_nothreads(tier, seed) + [
+        {"name": "threads", "engine": "jit", "timeout": 3000,
+         "args": {"mode": "threads", "n": 4 if tier == "quick" else 60}}]
+
+
+def _plan_nothreads(tier: str, seed: int):
     settings = SETTINGS_QUICK if tier == "quick" else SETTINGS_THOROUGH
     shards = [{"name": f"exh{i}", "engine": "jit",
                "args": {"mode": "exhaustive", "cfg": list(c)},
@@ -60,6 +67,7 @@ def REQUIRED_fn(tier):  # noqa: N802
     k = len(SETTINGS_QUICK if tier == "quick" else SETTINGS_THOROUGH)
     r["exhaustive_plans"] = 2_985_984 * k
     r["feasible_plans_confirmed"] = 1
+    r["concurrent_error_counts"] = 2000
     r["sign_flip_neighbours"] = 30000
     r["njit_oracle_cross_checked"] = 2000 * k
     return r
@@ -632,7 +640,48 @@ def random_shard(ctx, count):
                         "plan_first_days": p[:3]})
 
 
+def threads_shard(ctx, args):
+    """One shared TTP instance, every thread its own Errors objective and
+    its own plans."""
+    from moptipyapps.ttp.errors import Errors
+    from moptipyapps.ttp.game_plan import GamePlan
+    from vlib.threads import stress
+    rng = ctx.rng
+    for _ in range(args["n"]):
+        n = int(rng.choice([4, 6, 8, 12]))
+        rounds = int(rng.choice([1, 2, 3]))
+        cfg = random_cfg(rng, n, rounds)
+        inst = make_instance(n, cfg)
+        D = (n - 1) * rounds
+        plans = []
+        for _k in range(8):
+            p = ot.circle_method(n, rounds, bool(rng.integers(2)))
+            for _e in range(int(rng.integers(0, 4))):
+                p[int(rng.integers(D))][int(rng.integers(n))] = int(
+                    rng.integers(-n, n + 1))
+            plans.append(p)
+        o0 = Errors(inst)
+        ref = []
+        for p in plans:
+            gp = GamePlan(inst)
+            gp[:, :] = p
+            ref.append(int(o0.evaluate(gp)))
+
+        def jobs_for(tid):
+            o = Errors(inst)
+            gps = []
+            for p in plans:
+                gp = GamePlan(inst)
+                gp[:, :] = p
+                gps.append(gp)
+            return [lambda g=g: int(o.evaluate(g)) for g in gps]
+        if not stress(ctx, "error_counts", jobs_for, ref,
+                      lambda a, b: a == b, loops=60):
+            return
+
 def run_shard(ctx, args):
+    if args.get("mode") == "threads":
+        return threads_shard(ctx, args)
     if args["mode"] == "exhaustive":
         exhaustive(ctx, args["cfg"])
     else:
